@@ -15,6 +15,10 @@ import (
 // lcSweep enumerates crash points: for every (chain, type, victim) combination it runs the fault-free
 // baseline, then re-runs the scenario crashing the victim at each boundary crossing in both flavours.
 // judge is called for every finished history (including the baselines).
+// lcSeedOffset shifts the world seeds of lcSweep (thorough tiers repeat the sweep with other amounts, keys and
+// funding layouts).
+var lcSeedOffset int64
+
 func lcSweep(r *Run, chains []string, variant string, drain bool, setup func(h *lcHist), judge func(h *lcHist)) (points int) {
 	type combo struct{ chain, typ, victim string }
 	var combos []combo
@@ -31,7 +35,7 @@ func lcSweep(r *Run, chains []string, variant string, drain bool, setup func(h *
 	parallelDo(len(combos), 8, func(i int) {
 		cb := combos[i]
 		c := lcCase{chain: cb.chain, typ: cb.typ, victim: cb.victim, variant: variant, drain: drain}
-		h := lcRun(r.Seed*977+int64(i)+1, c, setup)
+		h := lcRun(r.Seed*977+lcSeedOffset+int64(i)+1, c, setup)
 		r.Eval()
 		judge(h)
 		n := h.victim.Crossings()
@@ -58,7 +62,7 @@ func lcSweep(r *Run, chains []string, variant string, drain bool, setup func(h *
 	})
 	parallelDo(len(cases), 12, func(i int) {
 		c := cases[i]
-		h := lcRun(r.Seed*977+int64(i)+100_000, c, setup)
+		h := lcRun(r.Seed*977+lcSeedOffset+int64(i)+100_000, c, setup)
 		h.c.name = c.name
 		r.Eval()
 		r.Seen(fmt.Sprintf("%s/%s/%s/crash-%s:%s/final=%s", c.chain, h.victimRole(), variant, c.flavor, c.name, h.p.state(h.victim)))
@@ -141,9 +145,37 @@ func c15Judge(r *Run, h *lcHist) {
 func TestC15(t *testing.T) {
 	r := newRun(t, "C15", "fault_enumeration")
 	defer r.Finish()
-	r.Rule = "crash-point enumeration: honest two-node swaps (4 roles × 2 chains); the victim is killed at every boundary crossing (store write or service call) before and after the effect, restarted through Start+RecoverSwaps, and the peer continues; offline oracle over the history: <=1 funding tx, <=1 settled payment per hash, no pay crossing after a committed SwapCanceled, re-sent request/agreement byte-identical. distinct = (chain, role, crash op, flavour, final state)"
+	r.Rule = "crash-point enumeration: honest two-node swaps (4 roles × 2 chains); the victim is killed at every boundary crossing (store write or service call) before and after the effect, restarted through Start+RecoverSwaps, and the peer continues; offline oracle over the history: <=1 funding tx, <=1 settled payment per hash, no pay crossing after a committed SwapCanceled or after the node sent cancel, re-sent request/agreement byte-identical. Extra continuation: the peer's agreement is held back until the initiator's negotiation timer fired and its cancel left, the initiator is killed at the five crossings around that cancel, restarted, then the agreement arrives. distinct = (chain, role, crash op, flavour, final state)"
 	r.Assumptions = []string{"a second completion of the same invoice is ultimately prevented by the Lightning node's own de-duplication, which the ledger models (CLN-like personality)", "process crashes only (bbolt NoSync): everything written before the kill is on disk"}
 	pts := lcSweep(r, []string{"btc", "lbtc"}, "happy", false, nil, func(h *lcHist) { c15Judge(r, h) })
+	if r.Thorough() {
+		// the same enumeration over other worlds (amounts, keys, funding layouts), and over the histories in which the
+		// claim payment fails (cooperative close path) or the claim broadcast fails 30 times
+		lcSeedOffset = 1_000_003
+		pts += lcSweep(r, []string{"btc", "lbtc"}, "happy", false, nil, func(h *lcHist) { c15Judge(r, h) })
+		lcSeedOffset = 2_000_003
+		pts += lcSweep(r, []string{"btc", "lbtc"}, "payfail", false, func(h *lcHist) {
+			h.p.w.LN.Script = func(payer string, inv *sim.Invoice, n int) sim.Outcome {
+				if inv.Type == 1 {
+					return sim.OutFail
+				}
+				return sim.OutSettle
+			}
+		}, func(h *lcHist) { c15Judge(r, h) })
+		lcSeedOffset = 3_000_003
+		pts += lcSweep(r, []string{"btc", "lbtc"}, "claimfail", false, func(h *lcHist) {
+			tk := h.p.taker()
+			n := 0
+			tk.Fault = func(op string) error {
+				if (op == "btc.preimage" || op == "lbtc.preimage") && n < 30 {
+					n++
+					return fmt.Errorf("injected: broadcast failed")
+				}
+				return nil
+			}
+		}, func(h *lcHist) { c15Judge(r, h) })
+		lcSeedOffset = 0
+	}
 	// continuation "the peer's answer is late": the agreement is held back until the initiator's negotiation timer
 	// has fired and it has sent cancel; the initiator is killed around that cancel (every crossing from the timer
 	// on), restarted, and only then the agreement arrives
@@ -273,13 +305,35 @@ func c13Judge(r *Run, h *lcHist) {
 func TestC13(t *testing.T) {
 	r := newRun(t, "C13", "fault_enumeration")
 	defer r.Finish()
-	r.Rule = "crash-point enumeration over both Liquid taker roles (swap-out sender, swap-in receiver): victim killed at every store write / service call (before and after the effect), restarted, peer continues and later events are replayed; oracle replays the victim's ordered log of committed records (re-read from bbolt), outgoing messages and payment attempts. Additional histories: Liquid tip moving between creation and sending, height lookup failing. distinct = (role, crash op, flavour, pubkey revealed, anchor committed)"
+	r.Rule = "crash-point enumeration over both Liquid taker roles (swap-out sender, swap-in receiver): victim killed at every store write / service call (before and after the effect), 7 Liquid blocks arrive while it is down, restarted, peer continues and later events are replayed; oracle replays the victim's ordered log of committed records (re-read from bbolt), outgoing messages and payment attempts. Additional histories: Liquid tip moving between creation and sending, height lookup failing. distinct = (role, crash op, flavour, pubkey revealed, anchor committed)"
 	r.Assumptions = []string{"committed = what an independent bbolt read transaction returns right after the write"}
 	// Liquid blocks keep arriving while the killed taker is down: an anchor that is recomputed on recovery differs
 	mineWhileDown := func(h *lcHist) {
 		h.whileDown = func(h *lcHist) { h.p.w.LBTC.Mine(7) }
 	}
 	pts := lcSweep(r, []string{"lbtc"}, "happy", false, mineWhileDown, func(h *lcHist) { c13Judge(r, h) })
+	if r.Thorough() {
+		// other worlds, and histories in which the claim payment fails (several attempts inside the window)
+		for k, off := range []int64{1_000_003, 2_000_003, 3_000_003} {
+			lcSeedOffset = off
+			setup := mineWhileDown
+			variant := "happy"
+			if k == 2 {
+				variant = "payfail"
+				setup = func(h *lcHist) {
+					mineWhileDown(h)
+					h.p.w.LN.Script = func(payer string, inv *sim.Invoice, n int) sim.Outcome {
+						if inv.Type == 1 && n <= 3 {
+							return sim.OutFail
+						}
+						return sim.OutSettle
+					}
+				}
+			}
+			pts += lcSweep(r, []string{"lbtc"}, variant, false, setup, func(h *lcHist) { c13Judge(r, h) })
+		}
+		lcSeedOffset = 0
+	}
 	// extra histories: height lookup failing at creation => no pubkey may go out; tip moving during negotiation
 	for i, v := range []string{"alice", "bob"} {
 		for _, mode := range []string{"height-fails", "tip-moves"} {
